@@ -27,7 +27,8 @@ LEVEL = "fault_enumeration"
 THOROUGH_WORKERS = 16
 RULE = (
     "recorded paramiko streams (2-6 encrypted packets, optional mid-stream rekey/compression/strict) per framing class "
-    "(quick: 10 classes x {none, zlib}; thorough: all 72 cipher x MAC pairs x {none, zlib} x both directions); fault plans: "
+    "(quick: 11 cipher/MAC representatives of the 10 framing classes + 4 with zlib, one generated stream each; thorough: all 72 cipher x MAC "
+    "pairs x {none, zlib}, 6 generated streams each, sender role and strict flag alternating); fault plans: "
     "EVERY single-byte XOR (generated mask), deletion and insertion position of the encrypted stream (exhaustive), plus "
     "hypothesis-generated multi-fault plans (<=4 of flip/delete/insert/truncate/packet swap/drop/duplicate/replay). one case = "
     "(recorded stream, fault plan). non-trivial = the plan changes bytes inside the packets the sender produced (not only "
@@ -361,7 +362,7 @@ def run(ctx):
         judge(ctx, stream, pkt.norm_case(plan), frags, _classes(stream, sorted(set("plan:" + o[0] for o in plan)) + ["multi", "multi-ops:%d" % len(plan)]))
 
     if not ctx.unknown:
-        ctx.explore(multi, body2, ctx.scale(1500, 60000), shrink=True, seed_offset=5)
+        ctx.explore(multi, body2, ctx.scale(1500, 40000), shrink=True, seed_offset=5)
 
 
 def replay(ctx, case):
